@@ -236,10 +236,28 @@ func (g *Gen) HeaderFor(r *FnResult) string {
 				continue
 			}
 			names = append(names, n)
-			fmt.Fprintf(&b, "(declare-const %s Str) ; %q\n(assert (= (Str_len %s) %d))\n", n, trunc40(s), n, len(s))
+			fmt.Fprintf(&b, "(declare-const %s Str) ; %q\n(assert (= (Str_len %s) %d))\n(assert (= (Str_at %s 0) %d))\n", n, trunc40(s), n, len(s), n, s[0])
 		}
 		if len(names) > 0 {
 			fmt.Fprintf(&b, "(assert (distinct str_empty %s))\n", strings.Join(names, " "))
+		}
+		// concatenation instances among the literals of the VC: "." ++ "png" = ".png"
+		if has("Str_cat") {
+			var usedLits []string
+			for _, s := range g.strOrder {
+				if has(g.strLits[s]) {
+					usedLits = append(usedLits, s)
+				}
+			}
+			for _, a := range usedLits {
+				for _, c := range usedLits {
+					if len(c) > len(a) && strings.HasPrefix(c, a) {
+						if bn, ok := g.strLits[c[len(a):]]; ok && has(bn) {
+							fmt.Fprintf(&b, "(assert (= (Str_cat %s %s) %s))\n", g.strLits[a], bn, g.strLits[c])
+						}
+					}
+				}
+			}
 		}
 		// integer-looking literals: connect to itoa
 		for _, s := range g.strOrder {
